@@ -503,10 +503,23 @@ func judgeReply(ctx *core.Ctx, c *Case, o *Obs) {
 		bad("the model predicts a panic")
 		return
 	case "closed":
+		// the model never answers this (c12_accepted_reply_answered); kept so that a changed model shows
 		if kind != "close" {
 			bad("a response although handle ends the connection before writing")
 			return
 		}
+	case "error":
+		// the reply is not passed on (a 101 that is no protocol switch): an error response of the model's status
+		if kind != "error" || len(f) < 2 || strconv.Itoa(res.Status) != f[1] {
+			bad("no error response of the model's status")
+			return
+		}
+		wantKA := !c.reqClose()
+		if s.ka != wantKA && o.Follow != "timeout" {
+			ctx.Disagree("an error response keeps the connection unless the request said close", c, fmt.Sprintf("keep-alive=%v follow=%s", s.ka, o.Follow), fmt.Sprint(wantKA))
+			return
+		}
+		ctx.Count("reply/not-a-switch/answered-" + f[1])
 	case "wrote":
 		if kind != "complete" && kind != "tunnel" && kind != "prefix" {
 			bad("no response of the upstream's status")
